@@ -56,6 +56,10 @@ typedef std::vector<KV> KVs;
 
 struct Glob {
     int oracle = 3;  // bit 0: semantic (C01), bit 1: structural (C02)
+    // semantic run only: a structurally broken state (left to C02) is still queried once for its observable
+    // consequences; if that pass itself crashes the exploration is restarted with the pass disabled.
+    bool consequence_pass = true;
+    volatile int* in_consequence_pass = nullptr;  // shared with the forked explorer
 };
 inline Glob& G() {
     static Glob g;
@@ -269,12 +273,29 @@ struct Walk {
     void err(const std::string& e) {
         if (errs.size() < 4) errs.push_back(e);
     }
+    bool cyclic() const { return visited > 200000; }
     // position of an iterator (leaf, slot): number of elements before it; -1 = not in this tree
+    mutable std::vector<std::pair<const void*, int>> index;  // leaves sorted by address (built on demand)
     int pos(const void* leaf, unsigned slot) const {
         if (leaf == nullptr) return leaves.empty() && slot == 0 ? 0 : -1;
-        for (size_t i = 0; i < leaves.size(); ++i)
-            if (leaves[i] == leaf) return slot <= (unsigned)leaf_use[i] ? leaf_start[i] + (int)slot : -1;
-        return -1;
+        size_t i = leaves.size();
+        if (leaves.size() <= 6) {
+            for (size_t j = 0; j < leaves.size(); ++j)
+                if (leaves[j] == leaf) {
+                    i = j;
+                    break;
+                }
+        } else {
+            if (index.size() != leaves.size()) {
+                index.clear();
+                for (size_t j = 0; j < leaves.size(); ++j) index.push_back(std::make_pair(leaves[j], (int)j));
+                std::sort(index.begin(), index.end());
+            }
+            auto it = std::lower_bound(index.begin(), index.end(), std::make_pair(leaf, -1));
+            if (it != index.end() && it->first == leaf) i = (size_t)it->second;
+        }
+        if (i == leaves.size()) return -1;
+        return slot <= (unsigned)leaf_use[i] ? leaf_start[i] + (int)slot : -1;
     }
 };
 
